@@ -58,7 +58,35 @@ bool RSEquationProcessor::ResolveCstAndPrecheck() const {
       nameSubstitutes.emplace(schema.GetRS(key).alias, schema.GetRS(value).alias);
     }
   }
-  return true;
+  return !CreatesDependencyLoop();
+}
+
+bool RSEquationProcessor::CreatesDependencyLoop() const {
+  // Note: pairs are admissible one by one, but together they can still close a loop
+  // Dependencies are checked after every removed constituent is identified with its replacement
+  EntityTranslation images{};
+  for (const auto& [key, value] : *equations) {
+    images.Insert(key, value);
+  }
+  graph::CGraph merged{};
+  const auto& dependencies = schema.RSLang().Graph();
+  for (const auto uid : schema.Core()) {
+    if (equations->ContainsKey(uid)) {
+      continue; // Note: definition of a removed constituent is dropped
+    }
+    merged.AddItem(uid);
+    for (const auto input : dependencies.InputsFor(uid)) {
+      merged.AddConnection(images.ContainsKey(input) ? images(input) : input, uid);
+    }
+  }
+  for (const auto& loop : merged.GetAllLoopsItems()) {
+    for (const auto& [key, value] : *equations) {
+      if (loop.contains(value)) {
+        return true;
+      }
+    }
+  }
+  return false;
 }
 
 bool RSEquationProcessor::PrecheckFor(const EntityUID key, const EntityUID value) const {
